@@ -243,9 +243,22 @@ def prove(prop, extra_targets=()):
 
 
 # ------------------------------------------------------------------ line-protocol runners
+def _big_stack():
+    # the extracted model recurses over message blocks: lift the stack limit for long messages
+    import resource
+    try:
+        resource.setrlimit(resource.RLIMIT_STACK, (resource.RLIM_INFINITY, resource.RLIM_INFINITY))
+    except Exception:
+        try:
+            soft, hard = resource.getrlimit(resource.RLIMIT_STACK)
+            resource.setrlimit(resource.RLIMIT_STACK, (hard, hard))
+        except Exception:
+            pass
+
+
 def _run_chunk(exe, lines, timeout):
     inp = ("\n".join(lines) + "\n").encode()
-    p = subprocess.run([exe], input=inp, stdout=subprocess.PIPE, stderr=subprocess.PIPE, timeout=timeout)
+    p = subprocess.run([exe], input=inp, stdout=subprocess.PIPE, stderr=subprocess.PIPE, timeout=timeout, preexec_fn=_big_stack)
     out = p.stdout.decode().split("\n")
     if out and out[-1] == "":
         out.pop()
